@@ -771,26 +771,46 @@ def write_targets_rule(P, r):
                 continue
             lists = {pn for pty, pn in fn.params if pty == 'i32*'} | {i.res for i in fn.insts() if i.op == 'call' and i.callee in ('@get_missing_data', '@get_missing_parity')}
             M = {pn for pty, pn in fn.params if pty == 'i32'}
+            # seeds: elements loaded from a missing-index list
+            for ins in fn.insts():
+                if ins.op == 'load' and ins.res:
+                    g = fn.defs.get(ins.ops[0])
+                    base = strip_ptr_casts(fn, g.ops[0]) if g is not None and g.op == 'getelementptr' else strip_ptr_casts(fn, ins.ops[0])
+                    bd = fn.defs.get(base)
+                    if bd is not None and bd.op == 'phi':
+                        nxt = [v for v, _ in bd.incoming if strip_ptr_casts(fn, v) in lists]
+                        base = strip_ptr_casts(fn, nxt[0]) if nxt else base
+                    if base in lists:
+                        M.add(ins.res)
+            # greatest fixpoint over casts / +-k / merges (loop-carried "found element" variables are phi cycles): assume every such
+            # node derives from the lists, then drop the ones with an operand that does not
+            nodes = {ins.res: ins for ins in fn.insts() if ins.res and ins.op in ('sext', 'zext', 'trunc', 'add', 'sub', 'select', 'phi') and not ins.ty.endswith('*')}
+            cand = set(nodes)
+            def fine(o):
+                if o in M or o in cand or INT.match(o):
+                    return True
+                d = fn.defs.get(o)
+                return d is not None and d.op == 'load' and o not in nodes and any(fl_ and fl_[-1][1] in ('k', 'm') for fl_ in [fields_in_path(access_path(P, fn, d.ops[0])[1])])
             changed = True
             while changed:
                 changed = False
-                for ins in fn.insts():
-                    if not ins.res or ins.res in M:
-                        continue
-                    if ins.op == 'load':
-                        g = fn.defs.get(ins.ops[0])
-                        base = strip_ptr_casts(fn, g.ops[0]) if g is not None and g.op == 'getelementptr' else strip_ptr_casts(fn, ins.ops[0])
-                        bd = fn.defs.get(base)
-                        while bd is not None and bd.op == 'phi':
-                            nxt = [v for v, _ in bd.incoming if strip_ptr_casts(fn, v) in lists]
-                            base = strip_ptr_casts(fn, nxt[0]) if nxt else base
-                            break
-                        if base in lists:
-                            M.add(ins.res); changed = True
-                    elif ins.op in ('sext', 'zext', 'trunc', 'add', 'sub', 'select', 'phi'):
-                        ops = [v for v, _ in ins.incoming] if ins.op == 'phi' else (ins.ops[1:] if ins.op == 'select' else ins.ops)
-                        if any(o in M for o in ops) and all(o in M or INT.match(o) or (fn.defs.get(o) is not None and fn.defs[o].op == 'load') for o in ops):
-                            M.add(ins.res); changed = True
+                for nme in list(cand):
+                    ins = nodes[nme]
+                    ops = [v for v, _ in ins.incoming] if ins.op == 'phi' else (ins.ops[1:] if ins.op == 'select' else ins.ops)
+                    if not all(fine(o) for o in ops):
+                        cand.discard(nme); changed = True
+            # a merge must have at least one list-derived source (not only constants)
+            def grounded(nme, seen_=None):
+                seen_ = seen_ or set()
+                if nme in M:
+                    return True
+                if nme in seen_ or nme not in cand:
+                    return False
+                seen_.add(nme)
+                ins = nodes[nme]
+                ops = [v for v, _ in ins.incoming] if ins.op == 'phi' else (ins.ops[1:] if ins.op == 'select' else ins.ops)
+                return any(grounded(o, seen_) for o in ops)
+            M |= {nme for nme in cand if grounded(nme)}
             def target_ok(v, depth=0):
                 v = strip_ptr_casts(fn, v)
                 d = fn.defs.get(v)
